@@ -1175,3 +1175,27 @@ Proof.
 Qed.
 
 End ScanProofs.
+
+(** ** Operation sequences on the API: parsing has no memory *)
+
+Lemma api_parse_pure urlnorm ops : forall st b,
+  nth (length ops) (api_run urlnorm st (ops ++ [ApiParse b])) OutNone = OutParse (from_bytes urlnorm b).
+Proof.
+  induction ops as [|op ops IH]; intros st b; cbn [app api_run length nth].
+  - cbn [api_step]. reflexivity.
+  - destruct (api_step urlnorm st op) as [st' o]. cbn [nth]. apply IH.
+Qed.
+
+Lemma upd_nth_other {A} (f : A -> A) (d : A) l : forall i k, i <> k -> nth k (upd_nth i f l) d = nth k l d.
+Proof.
+  induction l as [|x l IH]; intros i k H; [destruct i; reflexivity|].
+  destruct i, k; cbn [upd_nth nth]; try reflexivity; [congruence|apply IH; congruence].
+Qed.
+
+(** editing a record of list #i leaves every other list as it was *)
+Lemma api_edit_local urlnorm st op i k :
+  (exists j v, op = ApiSetName i j v) \/ (exists j v, op = ApiSetCompany i j v) \/ (exists j v, op = ApiSetData i j v) ->
+  i <> k -> nth k (fst (api_step urlnorm st op)) [] = nth k st [].
+Proof.
+  intros [(j & v & ->)|[(j & v & ->)|(j & v & ->)]] H; cbn [api_step fst]; apply upd_nth_other; exact H.
+Qed.
